@@ -501,6 +501,8 @@ def c_prim_cmp(ex, st, args, path, callee):
     mm = re.match(r'^<([iu]\w+) as', callee)
     sg = INT_TY[mm.group(1)][1]
     a, b = d(ex, args[0]), d(ex, args[1])
+    a = ex.mk_int(a[1], mm.group(1)) if isinstance(a, tuple) and a[0] == 'discr' else a
+    b = ex.mk_int(b[1], mm.group(1)) if isinstance(b, tuple) and b[0] == 'discr' else b
     if z3.is_int(a) or sg:
         lt = a < b
     else:
@@ -535,6 +537,11 @@ def c_minmax(which):
             return ret(z3.If(le, a, b), path)
         return ret(z3.If(le, b, a), path)   # max returns b when equal
     return f
+
+
+def c_int_try_into(ex, st, args, path, callee):
+    mm = re.match(r'^<([iu]\w+) as TryInto<([iu]\w+)>>::try_into$', callee)
+    return c_prim_try_from(ex, st, args, path, f'<{mm.group(2)} as TryFrom<{mm.group(1)}>>::try_from')
 
 
 def c_int_from(ex, st, args, path, callee):
@@ -591,6 +598,7 @@ CORE_INT = [
     ('core cmp::max', r'^(std|core)::cmp::max::<[iu]\w+>$', c_minmax('max')),
     ('core Ord::min', r'^<[iu]\w+ as (std::cmp::)?Ord>::min$', c_minmax('min')),
     ('core Ord::max', r'^<[iu]\w+ as (std::cmp::)?Ord>::max$', c_minmax('max')),
+    ('iN::try_into(uM) = Ok iff fits', r'^<[iu]\w+ as TryInto<[iu]\w+>>::try_into$', c_int_try_into),
     ('core iN::from(narrower) = widening', r'^<[iu]\w+ as From<([iu]\w+|bool)>>::from$', c_int_from),
 ]
 
@@ -757,6 +765,10 @@ def c_unwrap_or_default_int(ex, st, args, path, callee):
 def c_is_some(which):
     def f(ex, st, args, path, callee):
         o = d(ex, args[0])
+        if o.__class__.__name__ == 'SymEnum':
+            from .exec import ENUMS
+            vs = ENUMS[o.ty]
+            return ret(z3.Or([o.tag == vs.index(w) for w in which if w in vs]), path)
         return ret(z3.BoolVal(o.variant in which), path)
     return f
 
